@@ -254,6 +254,7 @@ static void runOneInChild(const Prop& prop, Case& c) {
     cfg.est_points = c.p.u("ep", 4000);
     cfg.pct_depth = (unsigned)c.p.i("pd", 3);
     cfg.poison_heap = (unsigned)c.p.i("ph", 1);
+    cfg.tick_ns = (unsigned)c.p.i("tk", 0);
     dsched_on_deadlock(cbDeadlock);
     dsched_on_livelock(cbLivelock);
     dsched_begin(&cfg);
